@@ -201,7 +201,7 @@ def _load_helper_mo(lit: LineIterator, n_basis: int, n_mo: int) -> dict:
         "mo_type": np.empty(n_mo, int),
         "mo_energies": np.empty(n_mo, float),
         "mo_occs": np.empty(n_mo, float),
-        "mo_sym": np.empty(n_mo, str),
+        "mo_sym": np.empty(n_mo, object),
         "mo_coeffs": np.empty([n_basis, n_mo], float),
     }
 
@@ -287,7 +287,7 @@ def load_one(lit: LineIterator) -> dict:
     extra = {
         "wfntype": inp["Wfntype"],
         "nindbasis": inp["Nindbasis"],
-        "mo_sym": inp["mo_sym"],
+        "mo_sym": inp["mo_sym"].astype(str),
         "full_virial_ratio": inp["VT_ratio"],
     }
 
